@@ -49,7 +49,20 @@ def register(reg):
                  "X(e_.geom, 0) == e_.source.coord.E and Y(e_.geom, 0) == e_.source.coord.N and "
                  "X(e_.geom, npts(e_.geom) - 1) == e_.target.coord.E and Y(e_.geom, npts(e_.geom) - 1) == e_.target.coord.N) for e_ in refs(Edge))"
                  % (NN % dict(t="e_.geom")))
-    GEO = ["npts(track) >= 1 and npts(track) == 1 + CNT and CNT >= 0",
+    ORI = ("(%(F)s(%(g)s, %(k)s) if %(e)s.source is %(v)s else %(F)s(%(g)s, npts(%(g)s) - 1 - %(k)s))")
+    ori = lambda F, e, v, k: ORI % dict(F=F, g=e + ".geom", e=e, v=v, k=k)
+    VERTEX = ("implies(0 <= J0 and J0 < len(EG_) and 0 <= K0 and K0 < npts(EG_[J0].geom), "
+              "X(track, OFF_[J0] + K0) == %s and Y(track, OFF_[J0] + K0) == %s)" % (ori("X", "EG_[J0]", "GN[J0]", "K0"), ori("Y", "EG_[J0]", "GN[J0]", "K0")))
+    OFFS_REST = ("len(OFF_) == len(EG_) and "
+            "all(0 <= OFF_[j] and OFF_[j] + npts(EG_[j].geom) - 1 <= npts(track) - 1 and "
+            "(EG_[j].id in self.EDGES and self.EDGES[EG_[j].id] is EG_[j]) for j in range(0, len(EG_))) and "
+            "implies(len(EG_) >= 1, OFF_[0] == 0 and OFF_[len(EG_) - 1] + npts(EG_[len(EG_) - 1].geom) - 1 == npts(track) - 1) and "
+            "all(implies(j >= 1, OFF_[j] == OFF_[j - 1] + npts(EG_[j - 1].geom) - 1) for j in range(0, len(EG_)))")
+    OFFS = "len(EG_) == len(GN) - 1 and " + OFFS_REST
+
+    def vertex(extra):
+        return VERTEX.replace("implies(0 <= J0 and", "implies((%s) and 0 <= J0 and" % extra, 1)
+    GEO = ["npts(track) >= 1 and npts(track) == 1 + CNT and CNT >= 0 and implies(len(EG_) == 0, npts(track) == 1)", OFFS, VERTEX,
            "X(track, 0) == TGT0.coord.E and Y(track, 0) == TGT0.coord.N",
            "X(track, npts(track) - 1) == node.coord.E and Y(track, npts(track) - 1) == node.coord.N",
            "all(isold(obs(track, r)) and isold(obs(track, r).position) for r in range(0, npts(track)))"]
@@ -57,25 +70,42 @@ def register(reg):
              "all(NODES_PATH[j] == GN[j].id and %s and GN[j].poids != -1 for j in range(0, len(GN)))" % isn("GN[j]"),
              "all(implies(j >= 1, GN[j - 1].antecedent is not None and GN[j] is GN[j - 1].antecedent) for j in range(0, len(GN)))"]
     reg.add(Spec(NW + "run_routing_backward", dict(self="Network", target="any"), "opt[Track]",
-                 ghost=dict(SRC="Node", TGT0="Node"),
+                 ghost=dict(SRC="Node", TGT0="Node", J0="int", K0="int", EG0="list[Edge]", OFF0="list[int]"),
                  requires=X["WFNET"] + X["LABELS"] + [X["TREE"], X["SETTLED_REACHED"],
                                                       "target in self.NODES and %s is TGT0 and %s" % (TGT, isn("TGT0")),
                                                       "TGT0.antecedent is None or TGT0.poids != -1", "SRC.antecedent is None",
                                                       "all(implies(%s, not isnan(n.coord.E) and not isnan(n.coord.N)) for n in refs(Node))" % isn("n"),
                                                       # geometry of the network: an edge listed under a node has that node as one of its ends, and
                                                       # its polyline (>= 2 numeric fixes) runs from its source node's position to its target node's
-                                                      LISTED_ENDS, EDGE_GEOM],
+                                                      LISTED_ENDS, EDGE_GEOM, "len(EG0) == 0 and len(OFF0) == 0"],
                  fresh=["Track", "Obs", "ENUCoords", "ObsTime"],
-                 locals=dict(NODES_PATH="list[any]", GN="list[Node]"),
-                 at={"NODES_PATH.append(node.id)": ["ghost GN = [node]", "ghost W = 0.0", "ghost CNT = 0"],
+                 locals=dict(NODES_PATH="list[any]", GN="list[Node]", EG_="list[Edge]", OFF_="list[int]", old_GN_="list[Node]"),
+                 at={"NODES_PATH.append(node.id)": ["ghost GN = [node]", "ghost W = 0.0", "ghost CNT = 0", "ghost EG_ = EG0", "ghost OFF_ = OFF0", "ghost old_GN_ = GN"],
+                     "track = track + (edge_geom > 1)": ["ghost OFF_ = OFF_ + [npts(track) - 1 - (npts(e.geom) - 1)]", "ghost EG_ = EG_ + [e]", "ghost old_GN_ = GN",
+                                                         ("offsets:lengths", "len(EG_) == len(GN) and len(OFF_) == len(EG_) and len(EG_) >= 1 and "
+                                                          "EG_[len(EG_) - 1] is e and OFF_[len(EG_) - 1] == npts(track) - 1 - (npts(e.geom) - 1) and "
+                                                          "e.id in self.EDGES and self.EDGES[e.id] is e"),
+                                                         ("offsets:earlier-entries-kept", "all(implies(j < len(EG_) - 1, 0 <= OFF_[j] and "
+                                                          "OFF_[j] + npts(EG_[j].geom) - 1 <= npts(track) - 1 - (npts(e.geom) - 1) and "
+                                                          "(EG_[j].id in self.EDGES and self.EDGES[EG_[j].id] is EG_[j])) for j in range(0, len(EG_)))"),
+                                                         ("offsets:first-and-last", "OFF_[0] == 0 and OFF_[len(EG_) - 1] + npts(EG_[len(EG_) - 1].geom) - 1 == npts(track) - 1"),
+                                                         ("offsets:consecutive", "all(implies(j >= 1, OFF_[j] == OFF_[j - 1] + npts(EG_[j - 1].geom) - 1) for j in range(0, len(EG_)))"),
+                                                         ("offsets-after-the-new-edge", "len(EG_) == len(GN) and " + OFFS_REST),
+                                                         ("vertices-of-the-earlier-edges-kept", vertex("J0 < len(EG_) - 1")),
+                                                         ("vertices-of-the-new-edge", vertex("J0 == len(EG_) - 1"))],
                      "e = self.EDGES[node.antecedent_edge]": ["ghost W = W + e.weight", "ghost CNT = CNT + npts(e.geom) - 1",
                                                               ("the-edge-joins-the-node-and-its-antecedent",
                                                                "(e.source is node and e.target is node.antecedent) or (e.target is node and e.source is node.antecedent)")],
-                     "if e.source != node:": [("oriented-from-the-node-to-its-antecedent",
+                     "if e.source != node:": [("oriented-copy-of-the-edge-polyline",
+                                               "npts(edge_geom) == npts(e.geom) and all(X(edge_geom, k) == %s and Y(edge_geom, k) == %s for k in range(0, npts(e.geom)))"
+                                               % (ori("X", "e", "node", "k"), ori("Y", "e", "node", "k"))),
+                                              ("oriented-from-the-node-to-its-antecedent",
                                                "npts(edge_geom) == npts(e.geom) and X(edge_geom, 0) == node.coord.E and Y(edge_geom, 0) == node.coord.N and "
                                                "X(edge_geom, npts(edge_geom) - 1) == nonnull(node.antecedent).coord.E and "
                                                "Y(edge_geom, npts(edge_geom) - 1) == nonnull(node.antecedent).coord.N")],
-                     "NODES_PATH.append(node.id)#2": ["ghost GN = GN + [nonnull(node)]"]},
+                     "NODES_PATH.append(node.id)#2": ["ghost GN = GN + [nonnull(node)]",
+                                                      ("earlier-chain-nodes-kept", "all(GN[j] is old_GN_[j] for j in range(0, len(GN) - 1))"),
+                                                      ("vertices-after-the-step", VERTEX)]},
                  loops={"1": LoopSpec(inv=CHAIN + [
                      "not isnan(W) and W == TGT0.poids - node.poids",
                      "isnew(track)"] + GEO + [
@@ -90,7 +120,12 @@ def register(reg):
                           ("geometry-starts-at-the-source-node", "implies(result is not None, X(nonnull(result), 0) == SRC.coord.E and Y(nonnull(result), 0) == SRC.coord.N)"),
                           ("geometry-ends-at-the-target-node", "implies(result is not None, X(nonnull(result), npts(nonnull(result)) - 1) == TGT0.coord.E and "
                            "Y(nonnull(result), npts(nonnull(result)) - 1) == TGT0.coord.N)")],
-                 ensures_local=[("one-vertex-per-edge-vertex-junctions-counted-once", "implies(result is not None, npts(nonnull(result)) == 1 + CNT)")]))
+                 ensures_local=[("one-vertex-per-edge-vertex-junctions-counted-once", "implies(result is not None, npts(nonnull(result)) == 1 + CNT)"),
+                                # `track` is the geometry in walking order (target to source); the result is its reversal
+                                ("edge-polylines-chained-end-to-end-each-oriented-along-the-walk", "implies(result is not None, %s and %s)" % (OFFS, VERTEX)),
+                                ("the-result-is-that-chain-reversed", "implies(result is not None, npts(nonnull(result)) == npts(track) and "
+                                 "all(same(X(nonnull(result), m), X(track, npts(track) - 1 - m)) and same(Y(nonnull(result), m), Y(track, npts(track) - 1 - m)) "
+                                 "for m in range(0, npts(track))))")]))
 
 
 FUNCTIONS = [NW + "run_routing_backward", T + "reverse"]
